@@ -261,3 +261,8 @@ impl<E> Drop for CQueue<E> {
 
 #[cfg(test)]
 mod tests;
+
+#[cfg(petrichorit_des_verif)]
+mod verif;
+#[cfg(petrichorit_des_verif)]
+pub use verif::*;
